@@ -7,6 +7,7 @@ Only property theorems and non-vacuity examples live here. Hypotheses (`WFcum`, 
 import Bermuda.Model.Basis
 import Bermuda.Spec.C04
 import Bermuda.Lemmas.BasisSpec
+import Bermuda.Lemmas.BasisCum
 import Bermuda.Lemmas.Eq
 namespace Bermuda.Properties.C04
 open Bermuda Std
@@ -411,6 +412,28 @@ theorem toInc_row_spec {t : List Cell} (h : WFcum t)
       simp [BEq.beq]
 
 
+/-- **C04, the same clause read backwards, on the model**: for a complete incremental triangle `to_cumulative`
+succeeds and the executable predicate `Spec.toCumRowSpec` — the one the driver evaluates on the IMPLEMENTATION's
+`to_cumulative` output — holds of its result: all cells cumulative without a previous date, in canonical order, the
+increments of the result are exactly `u` (`Spec.toIncRowSpec t u`: one per evaluation date of every row, linked to
+the preceding evaluation date, values = differences except `earned_premium`), and every increment of `u` is
+accounted for by exactly one cumulative cell. -/
+theorem toCum_row_spec {u : List Cell} (h : Complete u)
+    (hnd : ∀ c ∈ u, Spec.nodupKeys c.values = true) :
+    ∃ t, Triangle.toCumulative u = .ok t ∧ Spec.toCumRowSpec u t = true :=
+  toCumRowSpec_main h hnd
+
+/-- **clauses 1-3 under the statement's own hypothesis** ("rows keep one field set"; no hypothesis on the kind, dtype
+or shape of the values): on a cumulative triangle in canonical form with distinct coordinates whose rows keep one key
+set, WHENEVER `to_incremental` returns a triangle it satisfies `Spec.toIncRowSpec`. (`toInc_row_spec` adds `WFcum.types`
+— one kind per field along a row — to show that the conversion does not raise and for the exact round trip.) -/
+theorem toInc_row_spec_of_success {t u : List Cell} (hs : t.Pairwise (fun a b => Cell.cmp a b = .lt))
+    (hni : ∀ c ∈ t, c.kind ≠ .incremental) (hd : ∀ c ∈ t, c.datesOk = true)
+    (hkeys : ∀ a ∈ t, ∀ b ∈ t, rowKey a = rowKey b → sameKeys a.values b.values = true)
+    (hnd : ∀ c ∈ t, Spec.nodupKeys c.values = true)
+    (hu : Triangle.toIncremental t = .ok u) : Spec.toIncRowSpec t u = true :=
+  toIncRowSpec_of_success hs hni hd hkeys hnd hu
+
 /-- `Spec.roundTripCumSpec` (cell-by-cell equality with exact kinds, `Cell` read as `CumulativeCell`)
 holds of the model's `to_cumulative(to_incremental(t))` -/
 theorem roundTripCum_spec {t : List Cell} (h : WFcum t)
@@ -504,6 +527,11 @@ theorem exU_complete : Complete exU := by
 example : ∃ t, Triangle.toCumulative exU = .ok t ∧ Triangle.toIncremental t = .ok exU :=
   toInc_toCum exU_complete
 
+theorem exU_nodup : ∀ c ∈ exU, Spec.nodupKeys c.values = true := by decide +kernel
+
+example : ∃ t, Triangle.toCumulative exU = .ok t ∧ Spec.toCumRowSpec exU t = true :=
+  toCum_row_spec exU_complete exU_nodup
+
 
 
 /-- `exU` with one link removed (the 2021 evaluation of slice US, period 2020) -/
@@ -553,6 +581,43 @@ example : Triangle.toCumulative exUbadKeys = .error .triangleError :=
   toCum_error_of_key_mismatch
     ⟨by decide +kernel, by decide +kernel, by decide +kernel, adjOK_rows_of_B (by decide +kernel)⟩
     ⟨((d 2020 1 1, d 2020 12 31), mB), hasMismatch_of_B (by decide +kernel)⟩
+
+/-- a row whose field changes its KIND along the row (int, then float, then a float64 array): outside `WFcum`
+(`types` fails), inside `toInc_row_spec_of_success` -/
+def exMixed : List Cell :=
+  [ { kind := .cumulative, ps := d 2020 1 1, pe := d 2020 12 31, ev := d 2020 12 31, md := mA,
+      values := [("paid_loss", .int 5), ("earned_premium", .flt 100)] },
+    { kind := .cumulative, ps := d 2020 1 1, pe := d 2020 12 31, ev := d 2021 12 31, md := mA,
+      values := [("paid_loss", .flt (15/2)), ("earned_premium", .flt 100)] },
+    { kind := .cumulative, ps := d 2020 1 1, pe := d 2020 12 31, ev := d 2022 12 31, md := mA,
+      values := [("paid_loss", arrF [8, 9]), ("earned_premium", .flt 100)] } ]
+
+def exMixedInc : List Cell :=
+  [ { kind := .incremental, ps := d 2020 1 1, pe := d 2020 12 31, prev := some (d 2019 12 31), ev := d 2020 12 31,
+      md := mA, values := [("paid_loss", .int 5), ("earned_premium", .flt 100)] },
+    { kind := .incremental, ps := d 2020 1 1, pe := d 2020 12 31, prev := some (d 2020 12 31), ev := d 2021 12 31,
+      md := mA, values := [("paid_loss", .flt (5/2)), ("earned_premium", .flt 100)] },
+    { kind := .incremental, ps := d 2020 1 1, pe := d 2020 12 31, prev := some (d 2021 12 31), ev := d 2022 12 31,
+      md := mA, values := [("paid_loss", arrF [1/2, 3/2]), ("earned_premium", .flt 100)] } ]
+
+theorem exMixed_strict : exMixed.Pairwise (fun a b => Cell.cmp a b = .lt) := by decide +kernel
+
+theorem exMixed_toInc : Triangle.toIncremental exMixed = .ok exMixedInc := by
+  have hni : ∀ c ∈ exMixed, c.kind ≠ .incremental := by decide +kernel
+  have h1 : overRows incRow exMixed = .ok exMixedInc := by
+    unfold overRows
+    rw [orderedRows_of_strict exMixed_strict]
+    exact of_okIs (by decide +kernel)
+  simp only [Triangle.toIncremental, not_isIncremental_of_all hni, Bool.false_eq_true, if_false, h1, Except.bind]
+  rw [ofCells_of_all_kind .incremental (by decide +kernel)]
+  congr 1
+  exact List.mergeSort_of_pairwise (by decide +kernel)
+
+/-- non-vacuity of `toInc_row_spec_of_success` beyond `WFcum`: the mixed-kind row converts and its increments
+(5, then 2.5, then [0.5, 1.5]) satisfy the clause -/
+example : Spec.toIncRowSpec exMixed exMixedInc = true :=
+  toInc_row_spec_of_success exMixed_strict (by decide +kernel) (by decide +kernel) (by decide +kernel)
+    (by decide +kernel) exMixed_toInc
 
 /-! ### 7. the row key of the model and Python's grouping key -/
 
